@@ -453,17 +453,22 @@ func (r *patchRunner) Apply(filename string, f *ast.File) (fout *ast.File, comme
 				continue
 			}
 
-			matched = true
-			comments = c.Comments
-
 			cl := engine.NewChangelog()
 
-			var err error
-			fout, err = c.Replace(d, cl)
+			out, modified, err := c.Apply(d, cl)
 			if err != nil {
 				r.errors = append(r.errors, fmt.Errorf("could not update %q: %v", filename, err))
-				return nil, comments, false
+				return nil, c.Comments, false
 			}
+			if !modified {
+				// The replacement fits in none of the places that
+				// matched: this patch didn't modify the file either.
+				continue
+			}
+
+			matched = true
+			comments = c.Comments
+			fout = out
 
 			snap = snap.Diff(fout, cl)
 			fout.Comments = cleanupFilePos(r.fset.File(fout.Pos()), cl, fout.Comments)
